@@ -142,7 +142,7 @@ impl Property for C10 {
             pi.parameters.push(prm);
         }
         // assignment
-        let scenario = if pids.is_empty() { rng.below(2) } else { rng.below(3) };
+        let scenario = if pids.is_empty() { rng.below(2) } else { rng.below(5) };
         let mut assign: BTreeMap<u64, f64> = pids.iter().map(|p| (*p, value(rng, regime))).collect();
         let sname = match scenario {
             0 => "complete",
@@ -152,12 +152,35 @@ impl Property for C10 {
                 }
                 "complete-with-extras"
             }
-            _ => {
+            2 => {
                 let drop = *rng.pick(&pids);
                 assign.remove(&drop);
                 "missing-one"
             }
+            3 => {
+                // a declared parameter is missing although at least as many unrelated ids are supplied
+                let drop = *rng.pick(&pids);
+                assign.remove(&drop);
+                for _ in 0..1 + rng.below(3) {
+                    assign.insert(900_000 + rng.below(1000), value(rng, regime));
+                }
+                "missing-one-with-extras"
+            }
+            _ => {
+                // several (possibly all) declared parameters missing, extras present
+                let keep = rng.usize_below(pids.len());
+                let mut shuffled = pids.clone();
+                rng.shuffle(&mut shuffled);
+                for p in shuffled.iter().skip(keep) {
+                    assign.remove(p);
+                }
+                for _ in 0..rng.below(4) {
+                    assign.insert(900_000 + rng.below(1000), value(rng, regime));
+                }
+                "missing-several-with-extras"
+            }
         };
+        let missing = sname.starts_with("missing");
         mon.facet(&format!("with_parameters/{sname}/{}-parameters", pids.len()));
         let mut occurs = false;
         for f in std::iter::once(&pi.objective).chain(pi.constraints.iter().map(|c| &c.function)) {
@@ -185,7 +208,7 @@ impl Property for C10 {
                 return;
             }
             Ok(Err(e)) => {
-                if sname != "missing-one" {
+                if !missing {
                     mon.violation(format!("C10.rejected:{sname}"), format!("with_parameters failed ({e}) although every declared parameter has a value\n{}", ctx()));
                 } else {
                     mon.facet("missing-parameter-rejected");
@@ -194,8 +217,8 @@ impl Property for C10 {
             }
             Ok(Ok(i)) => i,
         };
-        if sname == "missing-one" {
-            mon.violation("C10.missing-parameter-accepted", format!("with_parameters returned an instance although a declared parameter has no value\nresult={out:?}\n{}", ctx()));
+        if missing {
+            mon.violation(format!("C10.missing-parameter-accepted:{sname}"), format!("with_parameters returned an instance although a declared parameter has no value\nresult={out:?}\n{}", ctx()));
             return;
         }
         if mon.want_sample() && occurs {
